@@ -2,6 +2,12 @@
 //! threads claim from an atomic counter. Each worker builds its own (Rc-based) objects.
 
 use std::sync::atomic::{AtomicBool, AtomicU64, Ordering};
+use std::sync::Mutex;
+
+/// Panics that escaped a case's own `guarded` sections (typically the implementation
+/// panicking while the harness renders or converts a result).  `Run::finish` turns them into
+/// violations (panic site inside the repository or its dependencies) or machinery errors.
+pub static WORKER_PANICS: Mutex<Vec<(u64, String)>> = Mutex::new(Vec::new());
 use std::time::{Duration, Instant};
 
 pub fn workers() -> usize {
@@ -64,7 +70,13 @@ pub fn par_indices<S, R: Send>(
                             }
                             let e = (s + chunk).min(total);
                             for i in s..e {
-                                f(&mut st, i);
+                                let r = std::panic::catch_unwind(std::panic::AssertUnwindSafe(|| f(&mut st, i)));
+                                if r.is_err() {
+                                    let mut g = WORKER_PANICS.lock().unwrap();
+                                    if g.len() < 200 {
+                                        g.push((i, crate::evid::last_panic()));
+                                    }
+                                }
                             }
                             done.fetch_add(e - s, Ordering::Relaxed);
                         }
